@@ -1,0 +1,41 @@
+//go:build verif
+
+// Verification hook (add-only, tag "verif"): exports the unexported parts of the rx prefilter
+// to the correspondence harness of property C11. Nothing here changes behaviour.
+
+package operators
+
+import "regexp/syntax"
+
+// VerifC11Lits is extractLiterals' result: Kind is "nil", "all", "any" or "combined".
+type VerifC11Lits struct {
+	Kind string
+	All  []string
+	Any  []string
+}
+
+func VerifC11MinLen(re *syntax.Regexp) int { return minLen(re) }
+
+func VerifC11MinMatchLength(pattern string) int { return minMatchLength(pattern) }
+
+func VerifC11PrefilterFunc(pattern string) func(string) bool { return prefilterFunc(pattern) }
+
+func VerifC11HasFoldCase(re *syntax.Regexp) bool { return hasFlag(re, syntax.FoldCase) }
+
+func VerifC11ExtractLiterals(re *syntax.Regexp, ci bool) VerifC11Lits {
+	switch v := extractLiterals(re, ci).(type) {
+	case nil:
+		return VerifC11Lits{Kind: "nil"}
+	case allRequired:
+		return VerifC11Lits{Kind: "all", All: append([]string(nil), v...)}
+	case anyRequired:
+		return VerifC11Lits{Kind: "any", Any: append([]string(nil), v...)}
+	case combinedRequired:
+		return VerifC11Lits{Kind: "combined", All: append([]string(nil), v.all...), Any: append([]string(nil), v.any...)}
+	}
+	return VerifC11Lits{Kind: "unknown"}
+}
+
+func VerifC11ExtractExactMatch(re *syntax.Regexp) (string, bool) { return extractExactMatch(re) }
+
+func VerifC11MatchesArbitraryBytes(expr string) bool { return matchesArbitraryBytes(expr) }
